@@ -9,6 +9,7 @@ CHECK = {
     "suites": [
         suite("auth", "c07", 160, 1600, stdin=True, args=["-suite", "auth"], timeout={"quick": 600, "thorough": 1800}),
         suite("pol", "c07", 60, 600, stdin=True, args=["-suite", "pol"], timeout={"quick": 300, "thorough": 900}),
+        suite("dmn", "c07", 24, 24, stdin=True, args=["-suite", "dmn"], timeout={"quick": 300, "thorough": 600}),
         suite("rep", "c07", 10, 160, stdin=True, args=["-suite", "rep"], timeout={"quick": 600, "thorough": 2400}),
     ],
     "lean_sources": ["ClusterVerif/Model/C07.lean", "ClusterVerif/Model/C07Sys.lean", "ClusterVerif/Spec/C07.lean", "ClusterVerif/Gen/C07.lean",
@@ -23,12 +24,17 @@ CHECK = {
             "variables set) / the follower's assignment; Config.RPCPolicy against the shipped table, Validate(), and r1 (trusted) / r2 (untrusted) "
             "calling the named + 13 sample endpoints on the real server built from that Config. Every served Config goes through Validate() first, as in NewCluster. "
             "Step H (1 in 7 + 5 boundary cases) is the daemon's path: a fresh Config loaded by the real cmdutils.NewLoadedConfigHelper from a service.json written to a scratch "
-            "directory (cluster section extended by the injected policy objects), then SetupTracing; the case continues with Configs().Cluster",
+            "directory (cluster section extended by the injected policy objects), then SetupTracing; the case continues with Configs().Cluster. dmn: (service | follower daemon) x consensus x libp2p_listen_multiaddress set? x basic_auth_credentials set? x caller listed as trusted? (24 cases, exhaustive): the real rest.API "
+            "built with the constructor and host that cmd/*'s source dictates today for that consensus (read by go/ast), a real libp2p host as cluster host, a fresh swarm peer without "
+            "credentials POSTs /pins/<cid> over a libp2p stream to the cluster host; non-trivial = caller not trusted. hs lines (suite auth): for every join handshake by a remote host the "
+            "consensus does not trust, Cluster.Version + Cluster.ID + Cluster.PeerAdd run with decodable arguments against a peer whose tracker / IPFS connector / allocator / consensus "
+            "record every call",
     "trusted_base": ["extract_c07 pattern matcher (fails closed) and go/ast, reflect",
                      "gorpc applies the authorization function to every remote stream and to no local call (go-libp2p-gorpc v0.1.3 server.go:240)",
                      "verif_export.go wrappers (VerifNewCluster, VerifNewRPCServer)",
                      "frozen intent table Spec/C07.lean (which endpoints are meant for local use)",
                      "the key spellings the pol suite injects (rpc_policy, rpcpolicy, RPCPolicy; CLUSTER_RPCPOLICY, CLUSTER_RPC_POLICY); the follower's assignment is copied by hand in the harness (the model's copy is regenerated)",
+                     "harness/common/c07_daemon.go (go/ast reader of cmd/* and api/rest/restapi.go, shared by translator and harness; fails closed); the dmn harness follows the constructor choice it reads instead of running package main",
                      "the allow-list handshakeMayCall (what identity/version/join handlers may touch) and the go/ast reach walker of extract_c07/reach.go (selector chains through one receiver)"],
     "assumptions": ["a remote call that gets a non-authorization error has passed authorization (calls carry an undecodable argument so that no handler runs)",
                     "go-libp2p-pubsub drops a message whose topic validator returns false; go-ds-crdt learns remote heads only from pubsub",
@@ -48,7 +54,12 @@ META = {
             "intended (pol_table_meets_spec); suite pol drives the real Config loader, the daemon's cmdutils ConfigHelper path (daemon_path_installs_shipped) and a real "
             "server built from the loaded Config. The handlers behind the endpoints are regenerated too (calls of all 50 handlers; for the open endpoints the calls followed "
             "through the methods of *Cluster and the RPC calls made with the serving peer's credentials): no open handler reaches a pinset-mutating / IPFS-driving call "
-            "(open_handlers_never_drive) or forwards to a non-open endpoint (open_handlers_forward_only_open).",
+            "(open_handlers_never_drive) or forwards to a non-open endpoint (open_handlers_forward_only_open); dynamically, recording components behind the real server see what the "
+            "three open handlers drive for an untrusted caller (hs lines, open_reach_passes_hs). How the daemons assemble the peer is regenerated too (Gen.daemonShape: every rest.NewAPI / "
+            "NewAPIWithHost and raft.NewConsensus / crdt.New call in cmd/ with its consensus guard, what api/rest does with the host): the REST API shares the cluster's libp2p host only under "
+            "the Raft guard (rest_shares_cluster_host_only_in_raft), so no untrusted swarm peer reaches a pinset-mutating REST route through the cluster host for any daemon / consensus / "
+            "REST configuration (rest_closed_to_untrusted_swarm_peers; suite dmn drives the real rest.API), each daemon builds the configured consensus component "
+            "(daemon_builds_configured_consensus), and unauthenticated metrics never change an authorization decision (metrics_never_authorize).",
     "note": "Trusted: Lean kernel, the extractor's pattern matcher, gorpc's use of the authorization function, the frozen intent table, the harness.",
     "technique": "Lean 4 theorems over regenerated tables/decision trees (translator) + correspondence run over real libp2p RPC and real CRDT replicas",
 }
